@@ -109,7 +109,7 @@ def stepC16 (s : Sess) (line : String) : Sess × String :=
         | q :: qs =>
           let p : Resp := { status := st, connClose := bit cc, bodyEOF := bit eof, header := hs, announced := an, trailer := ts, locHost := lh }
           let (p', close) := filterResp p q
-          let final := decide (st ≥ SSV.Gen.C16.finalStatus)
+          let final := isFinal st
           ({ s with respStopped := close, pending := if !close && final then qs else s.pending },
            s!"deliver {b2s close} {b2s final} {showFields p'.header} {showFields p'.trailer}")
     | _, _, _, _, _ => (s, "bad-op")
